@@ -763,6 +763,38 @@ func runC14(r *rep.Report, thorough bool) error {
 		}
 		ceps, env := c14Endpoints(eps, pkg.PkgPath, pkg.Name)
 		in := map[string]any{"case": t.Case.ID, "sources": t.Case.Sources()}
+		// the contract handed to the generator carries a type in every slot the registered handler
+		// fills (body, JSON / blob return, JSON form field, query parameters): a slot without its
+		// type makes the client drop the body, the payload or the declaration
+		lost := ""
+		if len(eps) == len(t.Routes) {
+			for i, e := range eps {
+				h := t.Routes[i].Handler
+				for _, it := range h.Items() {
+					if it.K == "bind" && e.Contract.InputBody == nil {
+						lost = fmt.Sprintf("endpoint %d (%s): the handler binds a %s body, the contract has no input type", i, e.Contract.Name, it.Ty)
+					}
+				}
+				if h.Ret.K == "json" && e.Contract.Return == nil {
+					lost = fmt.Sprintf("endpoint %d (%s): the handler returns JSON of type %s, the contract has no return type", i, e.Contract.Name, h.Ret.Ty)
+				}
+			}
+		}
+		for i := range ceps {
+			if ceps[i].FormJSON != nil && ceps[i].FormJSON.Ty == nil {
+				lost = fmt.Sprintf("endpoint %d (%s): the JSON form field %s has no type", i, ceps[i].Name, ceps[i].FormJSON.Name)
+			}
+			for _, q := range ceps[i].Query {
+				if q.Ty == nil {
+					lost = fmt.Sprintf("endpoint %d (%s): the query parameter %s has no type", i, ceps[i].Name, q.Name)
+				}
+			}
+		}
+		if lost != "" {
+			r.Case(map[string]any{"case": t.Case.ID, "endpoints": len(ceps), "lost": lost}, true)
+			r.Fail(rep.Failure{Signature: "c14:contract-slot-without-its-type", What: "the endpoint list given to GenerateAxios lost a type: " + lost, Input: in})
+			continue
+		}
 		reply, err := d.Call(map[string]any{"op": "c14.gen", "env": env, "endpoints": ceps})
 		if err != nil {
 			return err
